@@ -65,7 +65,8 @@ def integer_valued(p):
 class Canon:
     """normaliser with a memo (terms are hash-consed: the memo is keyed by identity)"""
 
-    def __init__(self, lower_bounds=None):
+    def __init__(self, lower_bounds=None, trunc_as_floor=False):
+        self.trunc_as_floor = trunc_as_floor   # read every float->int truncation as a floor (to find out whether that is the only difference)
         self.memo = {}
         self.keep = []
         self.lb = {}          # interned leaf term -> known lower bound
@@ -100,6 +101,29 @@ class Canon:
         return r
 
     def atom(self, kind, p, *extra):
+        if kind == 'floor' and not extra:
+            # floor(I + R) = I + floor(R) for the integer-valued part I (integer coefficients on integer-valued atoms)
+            # every coefficient on integer-valued atoms is split into its integer part and a fraction in [0, 1)
+            ipart, rest = {}, {}
+            for m, c in p.items():
+                if all(a[0] in ('p', 'floor', 'tdiv', 'trunc', 'abs', 'rem', 'rem_euclid') for a in m):
+                    ci = math.floor(c + 1e-12)
+                    fr = c - ci
+                    if abs(fr) < 1e-12:
+                        fr = 0.0
+                    if ci:
+                        ipart[m] = float(ci)
+                    if fr:
+                        rest[m] = fr
+                else:
+                    rest[m] = c
+            if ipart and rest:
+                cr = const_of(rest)
+                if cr is not None:
+                    return padd(ipart, {(): float(math.floor(cr))} if math.floor(cr) else {})
+                return padd(ipart, {(('floor', freeze(rest)),): 1.0})
+            if ipart and not rest:
+                return dict(ipart)
         return {((kind, freeze(p)) + extra,): 1.0}
 
     def _cf(self, t):
@@ -149,6 +173,9 @@ class Canon:
                 ca = const_of(a)
                 if ca is not None:
                     return {(): float(math.trunc(ca))} if math.trunc(ca) else {}
+                lb = self.lower_bound(a)
+                if self.trunc_as_floor or (lb is not None and lb >= 0):
+                    return self.atom('floor', a)
                 return self.atom('trunc', a)
             return a
         if tag == 'app':
